@@ -5,6 +5,7 @@ use serde_json::Value;
 pub mod c01;
 pub mod c02;
 pub mod c03;
+pub mod c04;
 pub mod c06;
 pub mod c12;
 pub mod c18;
@@ -15,6 +16,7 @@ pub fn run(prop: &str, args: &Args) -> i32 {
         "C01" => c01::run(args),
         "C02" => c02::run(args),
         "C03" => c03::run(args),
+        "C04" => c04::run(args),
         "C06" => c06::run(args),
         "C12" => c12::run(args),
         "C18" => c18::run(args),
